@@ -2313,6 +2313,12 @@ impl<'v> World<'v> {
             let d = format!("acknowledgements still owed to the broker after the benign continuation: {:?}", sh.oracle.owed_on(id));
             sh.oracle.flag("C04", "I2-ack-missing", &kinds.into_iter().collect::<Vec<_>>().join("+"), d);
         }
+        // a PUBREL that found its identifier pending is owed a successful PUBCOMP for as long as the session lives,
+        // whatever ended the connection it arrived on
+        if !sh.oracle.pubcomp_success_due.is_empty() && !last.fatal() {
+            let d = format!("PUBREL found identifiers {:?} pending, the session was never reset, and after the benign continuation no successful PUBCOMP has been sent for them", sh.oracle.pubcomp_success_due);
+            sh.oracle.flag("C04", "I4-pending-identifier-never-released-with-success", "pubcomp", d);
+        }
         // "exactly once by the end" for everything that had to be replayed on this connection
         let missing = sh.oracle.conns[id].must_replay.clone();
         let limit = sh.oracle.conns[id].max_packet;
